@@ -16,14 +16,14 @@ CLAUSE_PROPS = {
     'WfMoves': ['C03'], 'ResultOnce': ['C03', 'C06'], 'SuccessSticky': ['C03'], 'FinishedFrozen': ['C03', 'C11', 'C20'],
     'JoinGate': ['C04'], 'JoinOnce': ['C04'], 'Caused': ['C04'], 'ReqGate': ['C04'], 'OnlyNeededOnce': ['C04'],
     'DupNoEffect': ['C06'], 'StartOnce': ['C06', 'C10'], 'NoDoubleDispatch': ['C06', 'C10'],
-    'WithinLimit': ['C07'], 'OnePerIndex': ['C07'], 'CompleteAfterAll': ['C07'], 'WithItemsFinalState': ['C07'],
+    'WithinLimit': ['C07'], 'OnePerIndex': ['C07', 'C12'], 'CompleteAfterAll': ['C07', 'C12'], 'WithItemsFinalState': ['C07', 'C12'],
     'NoNewTasksWhilePaused': ['C10'], 'PauseAck': ['C10'],
     'NoNewTasksAfterStop': ['C11'], 'StopAck': ['C11'], 'TreeCancelled': ['C11'],
     'AttemptBound': ['C08'], 'StopAtFirstSuccess': ['C08'], 'FinalIffLast': ['C08'], 'DelayRespected': ['C08'],
     'WaitBeforeRespected': ['C08'], 'PauseBeforeRespected': ['C08'], 'WaitAfterRespected': ['C08'], 'TimeoutJudged': ['C08'], 'FailOnApplied': ['C08'],
     'ExpiredFailed': ['C20'], 'NeverExpireFresh': ['C20'], 'NoStuckTaskAtRest': ['C20', 'C01'],
     'RerunRestores': ['C12'], 'SkipApplied': ['C12'], 'RerunReexecutes': ['C12'], 'PartialRerunOnlyFailed': ['C12', 'C07'],
-    'ParentMirrorsChild': ['C09'], 'RootAndNamespace': ['C09'],
+    'ParentMirrorsChild': ['C09', 'C12'], 'RootAndNamespace': ['C09'],
     'Prescribed': ['C01', 'C02', 'C09', 'C10', 'C12'],
 }
 
@@ -43,6 +43,9 @@ def _run_job(job):
         tr['meta']['label'] = job.get('label', '')
         tr['meta']['yaml'] = job['prog'].yaml()
         tr['meta']['ops'] = job.get('ops') or []
+        import base64
+        import pickle
+        tr['job'] = base64.b64encode(pickle.dumps(job)).decode()
         return tr
     except Exception as e:   # machinery failure inside the worker
         import traceback
@@ -132,7 +135,7 @@ def report(pid, verdict, traces, viols, extra_sig=None):
                 mine += 1
                 verdict.violation(sig, msg, {'yaml': t['meta'].get('yaml'), 'oracle': {k: v['outcome'] for k, v in t['prog']['tasks'].items()},
                                              'meta': {k: v for k, v in t['meta'].items() if k not in ('yaml', 'action_runs')},
-                                             'events': [s['ev'] for s in t['steps']], 'failing_step': l,
+                                             'events': [s['ev'] for s in t['steps']], 'failing_step': l, 'job': t.get('job'),
                                              'obs_at_failure': t['steps'][l - 1]['obs']})
             else:
                 other += 1
